@@ -208,6 +208,15 @@ func buildQueryMulti(vc *FnVC, ks []int, wantModel bool) string {
 // thorough: all back ends run to completion; the answers are recorded per back end.
 func discharge(vc *FnVC, k int, timeoutSec int, thorough bool) (SolveResult, map[string]SolveResult) {
 	per := map[string]SolveResult{}
+	if st := vc.Obs[k].Static; st != "" {
+		r := SolveResult{Answer: "unsat", Solver: "frame-analysis"}
+		if st != "true" {
+			r.Answer = "sat"
+			r.Output = "frame analysis: " + vc.Obs[k].Text
+		}
+		per[r.Solver] = r
+		return r, per
+	}
 	q := buildQuery(vc, k, true)
 	if !thorough {
 		// stage 0: the back end that discharged this obligation last time (specs/hints.txt: performance
